@@ -105,11 +105,14 @@ def html_to_nodes(
     for child in root:
         if child.name == "img":
             if child.attrs.get("src") is None:
-                return [
+                # report it, but keep the nodes already created for the other elements
+                # (they may have registered ids / names on the document)
+                nodes_list.append(
                     renderer.reporter.error(
                         "<img> missing 'src' attribute", line=line_number
                     )
-                ]
+                )
+                continue
             content = "\n".join(
                 f":{k}: {_quote_option_value(v)}"
                 for k, v in sorted(child.attrs.items())
